@@ -179,7 +179,7 @@ class ExtentAttribute:
 
         return model.PixelResolutionType(int(w), int(h))
 
-      except ValueError:
+      except (ValueError, OverflowError):
         LOGGER.error("tts:extent on <tt> must be larger than 0")
 
     return None
